@@ -13,6 +13,11 @@ type DynamicFanOut[T any] struct {
 	closed  bool
 	mutex   sync.Mutex
 	outputs map[int64]chan T
+
+	// leaving[id] is closed by DespawnOutput before it waits for mutex: run() may be blocked sending
+	// to that output (its consumer stopped reading) while holding mutex, and has to let go of it.
+	leavingMutex sync.Mutex
+	leaving      map[int64]chan struct{}
 }
 
 func NewDynamicFanOut[T any](input <-chan T) *DynamicFanOut[T] {
@@ -21,6 +26,7 @@ func NewDynamicFanOut[T any](input <-chan T) *DynamicFanOut[T] {
 		inputCap: cap(input),
 		outputs:  make(map[int64]chan T),
 		mutex:    sync.Mutex{},
+		leaving:  make(map[int64]chan struct{}),
 	}
 	go f.run()
 	return &f
@@ -29,8 +35,17 @@ func NewDynamicFanOut[T any](input <-chan T) *DynamicFanOut[T] {
 func (f *DynamicFanOut[T]) run() {
 	for e := range f.input {
 		f.mutex.Lock()
-		for _, o := range f.outputs {
-			o <- e
+		for id, o := range f.outputs {
+			f.leavingMutex.Lock()
+			leaving, ok := f.leaving[id]
+			f.leavingMutex.Unlock()
+			if !ok {
+				continue // being despawned
+			}
+			select {
+			case o <- e:
+			case <-leaving:
+			}
 		}
 		f.mutex.Unlock()
 	}
@@ -64,6 +79,9 @@ func (f *DynamicFanOut[T]) SpawnOutput() (int64, <-chan T, error) {
 		return 0, nil, fmt.Errorf("no space available")
 	}
 
+	f.leavingMutex.Lock()
+	f.leaving[id] = make(chan struct{})
+	f.leavingMutex.Unlock()
 	f.outputs[id] = newChan
 	f.mutex.Unlock()
 	return id, newChan, nil
@@ -71,6 +89,16 @@ func (f *DynamicFanOut[T]) SpawnOutput() (int64, <-chan T, error) {
 
 // DespawnOutput removes output channel with given ID
 func (f *DynamicFanOut[T]) DespawnOutput(id int64) error {
+	f.leavingMutex.Lock()
+	leaving, ok := f.leaving[id]
+	if ok {
+		delete(f.leaving, id)
+	}
+	f.leavingMutex.Unlock()
+	if ok {
+		close(leaving)
+	}
+
 	f.mutex.Lock()
 	defer f.mutex.Unlock()
 
